@@ -21,7 +21,7 @@ RULE = (
     "distinct = (cone, vector pair) hash; non-trivial = outside the band."
 )
 ASSUMPTIONS = ["integer products below 2^53 are exact in float64", "Fraction(float) is exact"]
-N = {"quick": 160, "thorough": 4000}
+N = {"quick": 160, "thorough": 16000}
 REQUIRE = {"quick": {"lattice_boundary_events": 1000, "law_triples": 100000, "theta_dirs": 50000,
                      "icecream_cones": 8, "float_events": 2000, "batched_vs_single": 500, "integer_dtype_cone_cases": 20}}
 TIMEOUT = {"quick": 900, "thorough": 3600}
